@@ -88,3 +88,12 @@ func (h *vfHasher) Sum(b []byte) []byte {
 func (h *vfHasher) Reset()         { h.buf = nil }
 func (h *vfHasher) Size() int      { return h.size }
 func (h *vfHasher) BlockSize() int { return 64 }
+
+// VfDigests exposes the digests computed so far (for harnesses of other packages).
+func VfDigests() [][]byte {
+	var out [][]byte
+	for _, d := range vfDigests {
+		out = append(out, d.digest)
+	}
+	return out
+}
